@@ -16,6 +16,9 @@ import z3
 
 Fraction = fractions.Fraction
 
+import os as _os
+
+FORK_SITES = {} if _os.environ.get("SYMX_TRACE_FORKS") else None
 BRANCH_TIMEOUT_MS = 2000
 CHECK_TIMEOUT_MS = 20000
 
@@ -665,6 +668,17 @@ def _branch(e):
         elif r == z3.unknown:
             c.unknown_branches += 1
     if can_t and can_f:
+        if FORK_SITES is not None:
+            import sys as _sys
+            f = _sys._getframe(1)
+            site = []
+            while f is not None and len(site) < 3:
+                fn = f.f_code.co_filename
+                if "/symx/" not in fn and "numpy" not in fn:
+                    site.append("%s:%d" % (fn.split("/")[-1], f.f_lineno))
+                f = f.f_back
+            k = " < ".join(site)
+            FORK_SITES[k] = FORK_SITES.get(k, 0) + 1
         c.trace.append((True, True))
         c.solver.add(e)
         c.model = m_t
